@@ -29,11 +29,27 @@ func (e *Engine) registerModels() {
 		if line == "" || strings.HasPrefix(line, "#") {
 			continue
 		}
+		group := ""
+		if strings.HasPrefix(line, "@") {
+			j := strings.IndexByte(line, ' ')
+			group, line = line[1:j], strings.TrimSpace(line[j+1:])
+		}
 		i := strings.LastIndexByte(line, ' ')
 		if i < 0 {
 			continue
 		}
 		callee, model := strings.TrimSpace(line[:i]), line[i+1:]
+		if group != "" {
+			fn := mp.Func(model)
+			if fn == nil {
+				fatal(fmt.Errorf("subst.txt: no model function %s", model))
+			}
+			if e.groupSubst[group] == nil {
+				e.groupSubst[group] = map[string]*ssa.Function{}
+			}
+			e.groupSubst[group][callee] = fn
+			continue
+		}
 		if strings.HasPrefix(callee, "global ") {
 			g := strings.TrimPrefix(callee, "global ")
 			fn := mp.Func(model)
